@@ -53,7 +53,7 @@ Proof.
     rewrite M1, M2. auto. }
   destruct (t_pc (ts s t)) eqn:P.
   - (* Idle *) destruct (t_todo (ts s t)) as [|o rest]; [discriminate|]. inversion H; subst.
-    apply Same; simpl; [destruct (k_writer o); reflexivity | congruence].
+    apply Same; simpl; [destruct (k_set o); destruct (k_writer o); reflexivity | congruence].
   - (* RStart *) destruct (flights s (k_key (t_op (ts s t)))) as [f|] eqn:Fk.
     + inversion H; subst. apply Same; simpl; congruence.
     + inversion H; subst. clear H. split.
@@ -88,6 +88,7 @@ Proof.
   - (* W2 *) destruct (wfirst s); destruct (gate_open _ _); try discriminate; inversion H; subst.
     + apply Same; simpl; auto.
     + apply SameW; simpl; auto.
+  - (* SSet *) inversion H; subst. apply Same; simpl; auto.
 Qed.
 
 Lemma FL_init wf scripts : FL (init wf scripts).
@@ -157,7 +158,7 @@ Proof.
     - intros u. upd_cases u t; auto. }
   destruct (t_pc (ts s t)) eqn:P.
   - destruct (t_todo (ts s t)) as [|o rest]; [discriminate|]. inversion H; subst.
-    apply Same; simpl; [destruct (k_writer o); discriminate | discriminate].
+    apply Same; simpl; [destruct (k_set o); destruct (k_writer o); discriminate | discriminate].
   - destruct (flights s (k_key (t_op (ts s t)))) as [f|].
     + inversion H; subst. apply Same; simpl; discriminate.
     + inversion H; subst. apply CO_same with (s := s); auto; unfold pc_of, key_of; simpl.
@@ -203,6 +204,16 @@ Proof.
     + intros k' x. simpl. unfold upd at 1. destruct (Nat.eqb_spec k' k) as [->|Hk]; [discriminate|].
       intro E. destruct (C k' x E) as [?|[?|(u & Pu & Ku)]]; auto.
       right; right. exists u. unfold pc_of, key_of in *. simpl. upd_cases u t; [exfalso; apply Hk; symmetry; exact Ku|auto].
+  - (* SSet: the caller's row is stored *)
+    inversion H; subst. clear H. split; [assumption|]. split.
+    + intros u v0. unfold pc_of, key_of. simpl. upd_cases u t; simpl; [discriminate|]. apply R.
+    + intros k x. simpl. unfold upd at 1. destruct (Nat.eqb_spec k (k_key (t_op (ts s t)))) as [->|Hk].
+      * intro E. inversion E; subst.
+        destruct (Nat.eqb_spec (k_val (t_op (ts s t))) (db s (k_key (t_op (ts s t))))) as [Ev|Ev];
+          [left; exact Ev | right; left; apply orb_true_r].
+      * intro E. destruct (C k x E) as [?|[Hr|(u & Pu & Ku)]]; auto.
+        -- right; left. rewrite Hr. reflexivity.
+        -- right; right. exists u. unfold pc_of, key_of in *. simpl. upd_cases u t; [rewrite P in Pu; discriminate|auto].
 Qed.
 
 Lemma CO_init scripts : CO (init true scripts).
@@ -236,7 +247,9 @@ Qed.
 
 (* the ghost flag is raised only by a reader that stores after a write that followed its database read *)
 Lemma raced_only_by_straddle l s s' : step l s = Some s' -> raced s = false -> raced s' = true ->
-  exists t f v, l = Thr t /\ pc_of s t = RSet f v true.
+  exists t, l = Thr t /\
+    ((exists f v, pc_of s t = RSet f v true) \/
+     (pc_of s t = SSet /\ k_val (t_op (ts s t)) <> db s (key_of s t))).
 Proof.
   intros H R0 R1. destruct l as [t|g|d]; simpl in H; try (inversion H; subst; simpl in R1; congruence).
   destruct (t_pc (ts s t)) eqn:P;
@@ -244,12 +257,15 @@ Proof.
            | match ?x with _ => _ end = _ => destruct x eqn:?
            | (if ?x then _ else _) = _ => destruct x eqn:?
            end; try discriminate; inversion H; subst; simpl in R1; try congruence.
-  rewrite R0 in R1. simpl in R1. subst. exists t, f, v. unfold pc_of. auto.
+  - rewrite R0 in R1. simpl in R1. subst. exists t. split; [reflexivity|]. left. exists f, v. unfold pc_of. auto.
+  - rewrite R0 in R1. simpl in R1. exists t. split; [reflexivity|]. right. unfold pc_of, key_of. split; [assumption|].
+    intro E. rewrite E, Nat.eqb_refl in R1. discriminate.
 Qed.
 
 (* ---------- the limits, with their witness schedules ---------- *)
-Definition reader (k ga gb gc : nat) : cop := mkcop false k 0 ga gb gc.
-Definition writer (k v ga gb gc : nat) : cop := mkcop true k v ga gb gc.
+Definition reader (k ga gb gc : nat) : cop := mkcop false k 0 ga gb gc false.
+Definition writer (k v ga gb gc : nat) : cop := mkcop true k v ga gb gc false.
+Definition setter (k v : nat) : cop := mkcop false k v 0 0 0 true.
 
 (* the classic cache-aside race of the UNMODIFIED code: the reader queries (row 3), the writer writes 5 and
    deletes, the reader stores 3.  Everybody has finished, the entry is stale, and raced is set. *)
@@ -285,5 +301,29 @@ Proof.
            end; try discriminate; inversion H; subst; simpl; rewrite ?upd_same; simpl;
     repeat split; auto; try (intros; discriminate); try congruence;
     try (intros f0 E; inversion E; subst; repeat split; reflexivity).
-  destruct (k_writer c); discriminate.
+  destruct (k_set c); destruct (k_writer c); discriminate.
+Qed.
+
+(* ---------- what a waiter of a flight receives ---------- *)
+(* a waiter returns the result its flight's executing call published ... *)
+Lemma waiter_result s s' t f : pc_of s t = RWait f -> step (Thr t) s = Some s' ->
+  exists r, fres s f = Some r /\ t_res (ts s' t) = (false, r) :: t_res (ts s t) /\ pc_of s' t = Idle.
+Proof.
+  unfold pc_of. simpl. intros P H. rewrite P in H. destruct (fres s f) as [r|]; [|discriminate].
+  inversion H; subst. exists r. simpl. rewrite upd_same. simpl. auto.
+Qed.
+
+(* ... and that published result is never changed by anything anybody does afterwards -- further calls of the
+   executing goroutine on other keys included: only the end of the executing call of flight f writes fres f *)
+Lemma flight_result_stable l s s' f r : step l s = Some s' -> fres s f = Some r ->
+  (forall t r', l = Thr t -> pc_of s t <> REnd f r') -> fres s' f = Some r.
+Proof.
+  intros H F N. destruct l as [t|g|d]; simpl in H; try (inversion H; subst; exact F).
+  specialize (N t). unfold pc_of in N.
+  destruct (t_pc (ts s t)) eqn:P;
+    repeat match type of H with
+           | match ?x with _ => _ end = _ => destruct x eqn:?
+           | (if ?x then _ else _) = _ => destruct x eqn:?
+           end; try discriminate; inversion H; subst; simpl; try exact F.
+  destruct (Nat.eq_dec f f0) as [->|Hne]; [exfalso; eapply N; reflexivity | rewrite upd_other by assumption; exact F].
 Qed.
